@@ -3,7 +3,7 @@
    ISA specification Isa/X86.v, for ALL values.  The per-encoding breadth part is the in-kernel differential
    check of Isa/C01Check.v (processor + specification as oracles). *)
 From Coq Require Import ZArith List Bool NArith.
-From Falcon Require Import Base.Res IL.Const IL.ConstSpec IL.Expr IL.Func Exec.Sem Isa.X86 Isa.X86Lift Isa.X86Mirror Isa.X86Proofs Isa.X86Sim Isa.C01Check Isa.X86Tie Isa.X86SimMem Isa.X86SimStack Isa.X86SimCarry Isa.X86SimMore Isa.X86SimXchg Isa.X86SimMul Isa.X86SimShift Isa.X86SimRot Isa.X86SimCtl Isa.X86SimBt Isa.X86SimCall.
+From Falcon Require Import Base.Res IL.Const IL.ConstSpec IL.Expr IL.Func Exec.Sem Isa.X86 Isa.X86Lift Isa.X86Mirror Isa.X86Proofs Isa.X86Sim Isa.C01Check Isa.X86Tie Isa.X86SimMem Isa.X86SimStack Isa.X86SimCarry Isa.X86SimMore Isa.X86SimXchg Isa.X86SimMul Isa.X86SimShift Isa.X86SimRot Isa.X86SimCtl Isa.X86SimBt Isa.X86SimCall Isa.X86SimCmov.
 Import ListNotations.
 Local Open Scope Z_scope.
 
@@ -588,3 +588,13 @@ Theorem call_ind_sim : forall m addr len src,
   sim_when (fun s => X86SimMul.opnd_nw (wordsz m) src s /\ X86SimStack.push_no_wrap m (wordsz m) s) m addr len (ICallInd src).
 Proof. exact X86SimCall.call_ind_sim. Qed.
 Print Assumptions call_ind_sim.
+
+(* 24. round 8: graphs with a guarded block of real operations (run symbolically: X86SimCmov.run_diamond_1/_2,
+   run_diamond4_11/_21) and cmovcc r, r for the 14 condition codes that do not read PF: the three-block graph, and the
+   four-block graph of a 32-bit destination in long mode, whose "condition false" arm rewrites the destination with
+   itself (zero-extension); for the other sizes a false condition changes nothing *)
+Theorem cmov_sim : forall m addr len c sz dst src,
+  cc_no_pf c = true -> reg_operand_ok m sz (OReg dst) -> reg_operand_ok m sz src -> width_ok sz -> sz <> 8 ->
+  sim m addr len (ICmov c sz dst src).
+Proof. exact X86SimCmov.cmov_sim. Qed.
+Print Assumptions cmov_sim.
